@@ -53,3 +53,16 @@ def full_basis_tensors(basis_obj, order, N):
     full = np.asarray(full)
     nb = full.shape[1]
     return full.T.reshape((nb,) + (N,) * order + (3,) * order)
+
+
+def same_span(F1, F2, tol=1e-8):
+    """columns of F1 and F2 (both orthonormal) span the same space; returns (ok, message)"""
+    F1 = np.asarray(F1)
+    F2 = np.asarray(F2)
+    if F1.shape[1] != F2.shape[1]:
+        return False, f"dimensions {F1.shape[1]} vs {F2.shape[1]}"
+    if F1.shape[1] == 0:
+        return True, ""
+    M = F1.T @ F2
+    d = float(np.abs(M @ M.T - np.eye(F1.shape[1])).max())
+    return (d <= tol), f"|P1 - P2| ~ {d:.2e}"
